@@ -441,6 +441,7 @@ def equip(p, off, hook):
     for k, v in c04.VARS.items():
         p.set_variable(k, v + off)
     p.set_variable('txt', 'text%d' % off)
+    p.set_variable('lst', SHARED_LST)          # ONE host list registered on every parser of the host (reset before every run)
     for tag, code in c08.CODES.items():
         p.set_variable('e_' + tag, error.from_message(code))
 
@@ -485,6 +486,13 @@ def equip(p, off, hook):
         hook(p, 'callfn', [name, canon(list(args))])
     p.on('callFunction', on_fn)
     return p
+
+
+SHARED_LST = [3, 1, 2]
+
+
+def reset_shared():
+    SHARED_LST[:] = [3, 1, 2]
 
 
 def new_parser(off, hook):
@@ -604,6 +612,7 @@ def solo(formula, name):
             _solo_rig[0] = Rig()
         rig = _solo_rig[0]
         rig.reset()
+        reset_shared()
         with tapped(rig):
             fr = rig.evaluate(formula, 'new' if name == 'N' else name, rig.A, None)
         s = frame_summary(fr)
@@ -635,6 +644,7 @@ def run_nested(outer, trigger):
         _nest_rig[0] = Rig()
     rig = _nest_rig[0]
     rig.reset()
+    reset_shared()
     del rig.keep[2:]
     with tapped(rig):
         rig.evaluate(outer, 'A', rig.A, trigger)
@@ -1916,6 +1926,12 @@ def cases(rng, ctx):
     hand += list(RAISERS) if thorough else rng.sample(RAISERS, 2)
     hand += list(HOSTMADE) if thorough else rng.sample(HOSTMADE, 1)
     pool = hand + make_pool(rng, (16 if thorough else 6) + 3 * (scale - 1))
+    # first of all (before anything else of the kind has been evaluated in this process): formulas whose functions keep tables or
+    # work on host lists - a date-only format before a time format, a ranking function on the host's shared list
+    for outer, inner in [('CB(1)&" at "&TEXT(DATE(2024,3,5),"hh:mm")', 'TEXT(DATE(2024,11,17),"dd/mm/yyyy")'),
+                         ('CB(1)+INDEX(lst,1)', 'LARGE(lst,1)'), ('CB(1)+INDEX(lst,1)', 'SMALL(lst,1)+MEDIAN(lst)'),
+                         ('CB(2)&TEXT(1234.5,"#,##0.00")', 'TEXT(0.25,"0%")'), ('CB(1)+MATCH(2,lst,0)', 'RANK(2,lst)+COUNT(lst)')]:
+        out.append({'kind': 'nest', 'outer': outer, 'inner': inner, 'third': 'CB(7)', 'seed': rng.randrange(1 << 30), 'thorough': thorough})
     nests = []
     for outer in pool:
         for inner in pool:
